@@ -91,6 +91,7 @@ pub fn cases(tier: Tier) -> Vec<PairCase> {
             c.initial_window = Some(1 << 24);
             c.pace_front = Some(pace);
             c.upload_frame = 4000;
+            c.family = Some("slow-client-download+upload".into());
             v.push(c);
         }
         // the same with the connection window wide open too: more in flight than TLS
@@ -193,5 +194,8 @@ pub fn debug(args: &crate::common::Args) {
     let r = worker::isolated(move || run_pair("C14", &c, choices, profile(tier))).unwrap();
     println!("obs={}", r.observation);
     println!("trace_len={}", r.trace.len());
+    for (i, p) in r.trace.iter().enumerate().take(60) {
+        println!("  point {i}: {} alternatives={} chosen={}", p.kind, p.alternatives, p.chosen);
+    }
     println!("violations={:#?}", r.violations);
 }
